@@ -234,15 +234,21 @@ Definition pregap_free (s : state) (a : agenda) (p : nat) (h : hchunk) : bool :=
       end in
     scan (conn_buf s)) (h_toks h).
 
-(* move the head record of connection k through framing, sink batch, per-key buffer, channel, into the worker's hand *)
-Definition to_hand (k p : nat) (m : run) : option run :=
-  emits [EFrame k; ESinkSend k; EKeyFlush k p; EWorkerTake p] m.
+(* move the head record of connection k through framing, sink batch and per-key buffer into its pipeline's channel
+   (a batch of one record: the eager flush of an input batch size of 1) *)
+Definition to_chan (k p : nat) (m : run) : option run :=
+  emits [EFrame k; ESinkSend k; EKeyFlush k p] m.
 
 Definition mem (p : nat) (l : list nat) := existsb (Nat.eqb p) l.
 
+(* sy_ag: per pipeline, the observed chunks whose records are not all flushed yet (the head chunk holds its remaining
+   records); sy_gap: pipelines whose head chunk is partially flushed *)
 Record syn := mkSyn { sy_run : run; sy_ag : agenda; sy_gap : list nat }.
 
-(* try to process the head record of connection k; None = not processable now *)
+(* phase A: decide the order in which the records enter the pipeline channels.  The head record of connection k
+   may be flushed when it is the next record of its pipeline's worker order (the concatenation of the observed
+   chunks), when it is filtered, or - only if nothing else can move ([lazy_gap]) and its pipeline is at a chunk
+   boundary - when it is in no observed chunk at all. *)
 Definition try_conn (lazy_gap : bool) (y : syn) (k : nat) : option syn :=
   let s := fst (sy_run y) in
   match conn_head s k with
@@ -251,8 +257,8 @@ Definition try_conn (lazy_gap : bool) (y : syn) (k : nat) : option syn :=
     let p := t_pipe u in
     if negb (t_keep u) then
       if lazy_gap then None else
-      match to_hand k p (sy_run y) with
-      | Some m => match emit (EWorkerStep p) m with Some m' => Some (mkSyn m' (sy_ag y) (sy_gap y)) | None => None end
+      match to_chan k p (sy_run y) with
+      | Some m => Some (mkSyn m (sy_ag y) (sy_gap y))
       | None => None
       end
     else
@@ -262,48 +268,27 @@ Definition try_conn (lazy_gap : bool) (y : syn) (k : nat) : option syn :=
         | x :: xs =>
           if stamp_eqb x (st_of u) then
             if lazy_gap then None else
-            let fresh := none_of (on_pipe p) (cur s) || mem p (sy_gap y) in
-            if fresh && negb (pregap_free s (sy_ag y) p h) then None else
-            match to_hand k p (sy_run y) with
+            if negb (mem p (sy_gap y)) && negb (pregap_free s (sy_ag y) p h) then None else
+            match to_chan k p (sy_run y) with
             | Some m =>
-              let m1 := if mem p (sy_gap y) then emit (EChunkClose p (h_id h - 1) ADropQuota) m else Some m in
-              match m1 with
-              | Some m1' =>
-                match emit (EWorkerStep p) m1' with
-                | Some m2 =>
-                  let gap' := remove_nat p (sy_gap y) in
-                  match xs with
-                  | [] => match emit (EChunkClose p (h_id h) AMem) m2 with
-                          | Some m3 => Some (mkSyn m3 (ag_set (sy_ag y) p rest) gap')
-                          | None => None
-                          end
-                  | _ => Some (mkSyn m2 (ag_set (sy_ag y) p (mkH (h_id h) xs :: rest)) gap')
-                  end
-                | None => None
-                end
-              | None => None
+              match xs with
+              | [] => Some (mkSyn m (ag_set (sy_ag y) p rest) (remove_nat p (sy_gap y)))
+              | _ => Some (mkSyn m (ag_set (sy_ag y) p (mkH (h_id h) xs :: rest)) (if mem p (sy_gap y) then sy_gap y else p :: sy_gap y))
               end
             | None => None
             end
-          else if lazy_gap && negb (wanted_anywhere (sy_ag y) p (st_of u)) && (none_of (on_pipe p) (cur s) || mem p (sy_gap y)) then
-            match to_hand k p (sy_run y) with
-            | Some m => match emit (EWorkerStep p) m with
-                        | Some m' => Some (mkSyn m' (sy_ag y) (if mem p (sy_gap y) then sy_gap y else p :: sy_gap y))
-                        | None => None
-                        end
+          else if lazy_gap && negb (wanted_anywhere (sy_ag y) p (st_of u)) && negb (mem p (sy_gap y)) then
+            match to_chan k p (sy_run y) with
+            | Some m => Some (mkSyn m (sy_ag y) (sy_gap y))
             | None => None
             end
           else None
         | [] => None
         end
       | [] =>
-        (* every observed chunk of this pipeline is complete: the record is in no observed chunk *)
-        if lazy_gap && (none_of (on_pipe p) (cur s) || mem p (sy_gap y)) then
-          match to_hand k p (sy_run y) with
-          | Some m => match emit (EWorkerStep p) m with
-                      | Some m' => Some (mkSyn m' (sy_ag y) (if mem p (sy_gap y) then sy_gap y else p :: sy_gap y))
-                      | None => None
-                      end
+        if lazy_gap then
+          match to_chan k p (sy_run y) with
+          | Some m => Some (mkSyn m (sy_ag y) (sy_gap y))
           | None => None
           end
         else None
@@ -316,7 +301,6 @@ Fixpoint first_some {A B} (f : A -> option B) (l : list A) : option B :=
   | x :: r => match f x with Some y => Some y | None => first_some f r end
   end.
 
-(* global greedy schedule of the input side and the workers *)
 Fixpoint feed (fuel : nat) (y : syn) : syn :=
   match fuel with
   | O => y
@@ -331,6 +315,45 @@ Fixpoint feed (fuel : nat) (y : syn) : syn :=
       end
     end
   end.
+
+(* phase B: the workers.  Bring record x of pipeline p into the current chunk; records in front of it in the
+   channel are filtered ones, or records of no observed chunk, which are closed as a dropped chunk (id gapid)
+   before the first record of the observed chunk is appended *)
+Fixpoint advance (fuel : nat) (p : nat) (x : stamp) (first : bool) (gapid : nat) (m : run) : option run :=
+  match fuel with
+  | O => None
+  | S f =>
+    let s := fst m in
+    match take_first (on_pipe p) (hand s) with
+    | None => match emit (EWorkerTake p) m with Some m' => advance f p x first gapid m' | None => None end
+    | Some (u, _) =>
+      if negb (t_keep u) then match emit (EWorkerStep p) m with Some m' => advance f p x first gapid m' | None => None end
+      else if stamp_eqb (st_of u) x then
+        let m1 := if first && negb (none_of (on_pipe p) (cur s)) then emit (EChunkClose p gapid ADropQuota) m else Some m in
+        match m1 with Some m1' => emit (EWorkerStep p) m1' | None => None end
+      else if first then match emit (EWorkerStep p) m with Some m' => advance f p x first gapid m' | None => None end
+      else None
+    end
+  end.
+
+Fixpoint build_chunk (fuel : nat) (p : nat) (id : nat) (xs : list stamp) (first : bool) (m : run) : option run :=
+  match xs with
+  | [] => emit (EChunkClose p id AMem) m
+  | x :: r => match advance fuel p x first (id - 1) m with
+              | Some m' => build_chunk fuel p id r false m'
+              | None => None
+              end
+  end.
+
+(* the observed chunks of a generation, all pipelines, by ascending id (ids are ordered by wall-clock time) *)
+Fixpoint insert_by_id (x : nat * hchunk) (l : list (nat * hchunk)) : list (nat * hchunk) :=
+  match l with
+  | [] => [x]
+  | y :: r => if Nat.leb (h_id (snd x)) (h_id (snd y)) then x :: l else y :: insert_by_id x r
+  end.
+
+Definition chunks_by_id (g : gblock) : list (nat * hchunk) :=
+  fold_right insert_by_id [] (flat_map (fun pb => map (fun h => (pb_pipe pb, h)) (pb_created pb)) (gb_pipes g)).
 
 (* does chunk id of pipeline p occur in the rest of the trace (later sessions, this or later disk listings)? *)
 Definition occurs_in_sessions (p id : nat) (ss : list (list (nat * nat))) : bool :=
@@ -463,14 +486,19 @@ Fixpoint handback_all (fuel : nat) (p : nat) (g : gblock) (m : run) : run :=
 
 Definition stop_pipe (fuel : nat) (g : gblock) (m : run) (p : nat) : option run :=
   let m1 := drain_worker fuel p m in
-  match emit (EWorkerStop p (gb_end_id g) ADropQuota) m1 with
+  (* a last chunk of unobserved records gets an id above everything created so far (below the next generation's) *)
+  match emit (EWorkerStop p (S (Nat.max (gb_end_id g) (lastid (fst m1)))) ADropQuota) m1 with
   | Some m2 =>
-    match emit (EDestroy p) m2 with
+    match emits [EDestroy p; EFeederBreak p] m2 with
     | Some m3 =>
-      let m4 := save_stage fuel p WWindow g (save_stage fuel p WHand g (save_stage fuel p WQueue g m3)) in
+      let m4 := save_stage fuel p WHand g (save_stage fuel p WQueue g m3) in
       let m5 := while_enabled 1 (ESessionEnd p) m4 in
       match emit (EClientStop p) m5 with
-      | Some m6 => emits [EClientDone p; EFeederEnd p] (handback_all fuel p g m6)
+      | Some m6 =>
+        match emit (EClientDone p) (handback_all fuel p g m6) with
+        | Some m7 => emit (EFeederEnd p) (save_stage fuel p WWindow g m7)
+        | None => None
+        end
       | None => None
       end
     | None => None
@@ -490,7 +518,10 @@ Definition synth_gen (fuel : nat) (g : gblock) (later_gens : nat -> nat -> bool)
   | Some m1 =>
     let y := feed fuel (mkSyn m1 (agenda_of g) []) in
     if negb (ag_done (sy_ag y)) then None else
-    match fold_opt (fun m pb => sessions_events (pb_pipe pb) (pb_sessions pb) (later_gens (pb_pipe pb)) g m) (gb_pipes g) (sy_run y) with
+    match fold_opt (fun m ph => build_chunk fuel (fst ph) (h_id (snd ph)) (h_toks (snd ph)) true m) (chunks_by_id g) (sy_run y) with
+    | None => None
+    | Some mB =>
+    match fold_opt (fun m pb => sessions_events (pb_pipe pb) (pb_sessions pb) (later_gens (pb_pipe pb)) g m) (gb_pipes g) mB with
     | None => None
     | Some m2 =>
       match gb_stop g with
@@ -509,6 +540,7 @@ Definition synth_gen (fuel : nat) (g : gblock) (later_gens : nat -> nat -> bool)
           end
         end
       end
+    end
     end
   end.
 
